@@ -34,18 +34,19 @@ Proof. vm_compute. reflexivity. Qed.
 Example w_best : option_map (map enode) (top_path w_conn (insert_all w_conn (reset (nchars (cur w_s))) w_ns)) = Some (map Some w_p).
 Proof. vm_compute. reflexivity. Qed.
 
-(* ResultNodes of the best path: ア and イ are OOV katakana (class bit KATAKANA), 東京都 is word 7 of the dictionary *)
+(* ResultNodes of the best path: ア and イ are OOV katakana (class bit KATAKANA), 東京都 is word 7 of the dictionary
+   (extra = 1: it has an A-unit split list; merged and OOV nodes have extra = 0) *)
 Definition KAT : N := Rewrite.RF.KATAKANA.
 Definition w_pr : list Rewrite.node :=
-  [Rewrite.mkN 0 1 0 3 [12450%N] [] [] [] 5 true KAT KAT; Rewrite.mkN 1 2 3 6 [12452%N] [] [] [] 5 true KAT KAT;
-   Rewrite.mkN 2 5 6 15 [26481; 20140; 37117]%N [] [] [] 1 false 0 0].
+  [Rewrite.mkN 0 1 0 3 [12450%N] [] [] [] 0 5 true KAT KAT; Rewrite.mkN 1 2 3 6 [12452%N] [] [] [] 0 5 true KAT KAT;
+   Rewrite.mkN 2 5 6 15 [26481; 20140; 37117]%N [] [] [] 1 1 false 0 0].
 Example w_rnodes : Forall2 (rnode_of (cur w_s)) w_p w_pr.
 Proof. repeat constructor. Qed.
 
 Definition w_pls : list Rewrite.plugin := [Rewrite.PNumeric true 3; Rewrite.PKatakana 3 9].
 Definition w_q : list Rewrite.node :=
-  [Rewrite.mkN 0 2 0 6 [12450; 12452]%N [12450; 12452]%N [12450; 12452]%N [] 9 true KAT KAT;
-   Rewrite.mkN 2 5 6 15 [26481; 20140; 37117]%N [] [] [] 1 false 0 0].
+  [Rewrite.mkN 0 2 0 6 [12450; 12452]%N [12450; 12452]%N [12450; 12452]%N [] 0 9 true KAT KAT;
+   Rewrite.mkN 2 5 6 15 [26481; 20140; 37117]%N [] [] [] 1 1 false 0 0].
 Example w_rewrite : Rewrite.run_plugins w_pls w_pr = Some (Rewrite.Ok w_q).
 Proof. vm_compute. reflexivity. Qed.
 
